@@ -1,0 +1,408 @@
+//go:build verif
+
+package art
+
+// Verification hooks. Compiled only with `-tags verif`; add-only: nothing in
+// this file is referenced by the library itself. The walkers only copy fields
+// out of the nodes; every comparison and abstraction is done by the consumer.
+
+import (
+	"fmt"
+	"strings"
+	"unsafe"
+)
+
+type verifRooted interface {
+	verifRoot() nodeRef
+	verifLeaf(unsafe.Pointer) (key, tkey []byte, val any)
+}
+
+func (t *alphaSortedTree[K, V]) verifRoot() nodeRef { return t.root }
+func (t *alphaSortedTree[K, V]) verifLeaf(p unsafe.Pointer) ([]byte, []byte, any) {
+	l := (*alphaLeafNode[V])(p)
+	return l.getKey(), l.getTransformKey(), l.value
+}
+
+func (t *unsignedSortedTree[K, V]) verifRoot() nodeRef { return t.root }
+func (t *unsignedSortedTree[K, V]) verifLeaf(p unsafe.Pointer) ([]byte, []byte, any) {
+	l := (*unsignedLeafNode[V])(p)
+	return l.getKey(), l.getTransformKey(), l.value
+}
+
+func (t *signedSortedTree[K, V]) verifRoot() nodeRef { return t.root }
+func (t *signedSortedTree[K, V]) verifLeaf(p unsafe.Pointer) ([]byte, []byte, any) {
+	l := (*signedLeafNode[V])(p)
+	return l.getKey(), l.getTransformKey(), l.value
+}
+
+func (t *floatSortedTree[K, V]) verifRoot() nodeRef { return t.root }
+func (t *floatSortedTree[K, V]) verifLeaf(p unsafe.Pointer) ([]byte, []byte, any) {
+	l := (*floatLeafNode[V])(p)
+	return l.getKey(), l.getTransformKey(), l.value
+}
+
+func (t *compoundSortedTree[K, V]) verifRoot() nodeRef { return t.root }
+func (t *compoundSortedTree[K, V]) verifLeaf(p unsafe.Pointer) ([]byte, []byte, any) {
+	l := (*compoundLeafNode[V])(p)
+	return l.getKey(), l.getTransformKey(), l.value
+}
+
+func (t *collationSortedTree[K, V]) verifRoot() nodeRef { return t.root }
+func (t *collationSortedTree[K, V]) verifLeaf(p unsafe.Pointer) ([]byte, []byte, any) {
+	l := (*collateLeafNode[V])(p)
+	return l.getKey(), l.getTransformKey(), l.value
+}
+
+func verifHex(b []byte) string {
+	if len(b) == 0 {
+		return "-"
+	}
+	return fmt.Sprintf("%x", b)
+}
+
+// verifRaw writes the header and the raw child table of an inner node:
+// class childrenLen prefixLen prefix[10] rawkeys occupancy
+func verifRaw(sb *strings.Builder, r nodeRef) {
+	n := r.node()
+	var class int
+	var raw []byte
+	var occ []byte
+	switch r.tag {
+	case nodeKind4:
+		n4 := (*node4)(r.pointer)
+		class = 4
+		raw = []byte{byte(n4.keys), byte(n4.keys >> 8), byte(n4.keys >> 16), byte(n4.keys >> 24)}
+		for i := range n4.children {
+			occ = append(occ, verifOcc(n4.children[i]))
+		}
+	case nodeKind16:
+		n16 := (*node16)(r.pointer)
+		class = 16
+		raw = n16.keys[:]
+		for i := range n16.children {
+			occ = append(occ, verifOcc(n16.children[i]))
+		}
+	case nodeKind48:
+		n48 := (*node48)(r.pointer)
+		class = 48
+		raw = n48.keys[:]
+		for i := range n48.children {
+			occ = append(occ, verifOcc(n48.children[i]))
+		}
+	case nodeKind256:
+		n256 := (*node256)(r.pointer)
+		class = 256
+		for i := range n256.children {
+			occ = append(occ, verifOcc(n256.children[i]))
+		}
+	default:
+		panic("verif: not an inner node")
+	}
+	fmt.Fprintf(sb, "N %d %d %d %s %s %s", class, n.childrenLen, n.prefixLen, verifHex(n.prefix[:]), verifHex(raw), occ)
+}
+
+func verifOcc(r nodeRef) byte {
+	if r.pointer != nil {
+		return '1'
+	}
+	return '0'
+}
+
+// verifSlots lists the slots the library itself treats as live: the first
+// childrenLen slots of node4/node16, the non-nil slots of node48/node256.
+func verifSlots(r nodeRef) (slots []int, refs []nodeRef) {
+	switch r.tag {
+	case nodeKind4:
+		n4 := (*node4)(r.pointer)
+		for i := 0; i < int(n4.childrenLen) && i < len(n4.children); i++ {
+			slots, refs = append(slots, i), append(refs, n4.children[i])
+		}
+	case nodeKind16:
+		n16 := (*node16)(r.pointer)
+		for i := 0; i < int(n16.childrenLen) && i < len(n16.children); i++ {
+			slots, refs = append(slots, i), append(refs, n16.children[i])
+		}
+	case nodeKind48:
+		n48 := (*node48)(r.pointer)
+		for i := range n48.children {
+			if n48.children[i].pointer != nil {
+				slots, refs = append(slots, i), append(refs, n48.children[i])
+			}
+		}
+	case nodeKind256:
+		n256 := (*node256)(r.pointer)
+		for i := range n256.children {
+			if n256.children[i].pointer != nil {
+				slots, refs = append(slots, i), append(refs, n256.children[i])
+			}
+		}
+	}
+	return
+}
+
+func verifDumpRef(sb *strings.Builder, t verifRooted, r nodeRef, budget *int) {
+	*budget--
+	if *budget < 0 {
+		panic("verif: dump budget exhausted (cyclic or runaway structure)")
+	}
+	if r.pointer == nil {
+		sb.WriteString("X")
+		return
+	}
+	if r.tag == nodeKindLeaf {
+		k, tk, v := t.verifLeaf(r.pointer)
+		fmt.Fprintf(sb, "L %s %s %v", verifHex(k), verifHex(tk), v)
+		return
+	}
+	verifRaw(sb, r)
+	slots, refs := verifSlots(r)
+	fmt.Fprintf(sb, " %d", len(slots))
+	for i := range slots {
+		fmt.Fprintf(sb, " %d ", slots[i])
+		verifDumpRef(sb, t, refs[i], budget)
+	}
+}
+
+// VerifDump renders the whole index of a tree created by one of the New*
+// constructors as one line (pre-order). "E" is the empty tree.
+func VerifDump(tree any) string {
+	t, ok := tree.(verifRooted)
+	if !ok {
+		panic("verif: not a go-art tree")
+	}
+	root := t.verifRoot()
+	if root.pointer == nil {
+		return "E"
+	}
+	var sb strings.Builder
+	budget := 1 << 22
+	verifDumpRef(&sb, t, root, &budget)
+	return sb.String()
+}
+
+// VerifBareNode drives the child-table operations of node.go on a single
+// inner node whose children are dummies identified by an id.
+type VerifBareNode struct {
+	ref nodeRef
+	ids map[unsafe.Pointer]uint32
+}
+
+type verifDummy struct{ id uint32 }
+
+func NewVerifBareNode(prefixLen uint32, prefix [maxPrefixLen]byte) *VerifBareNode {
+	n4 := nodePools[nodeKind4].Get().(*node4)
+	n4.prefixLen = prefixLen
+	n4.prefix = prefix
+	return &VerifBareNode{
+		ref: nodeRef{pointer: unsafe.Pointer(n4), tag: nodeKind4},
+		ids: map[unsafe.Pointer]uint32{},
+	}
+}
+
+func (b *VerifBareNode) AddLeaf(c byte, id uint32) {
+	d := &verifDummy{id: id}
+	b.ids[unsafe.Pointer(d)] = id
+	b.ref.addChild(c, nodeRef{pointer: unsafe.Pointer(d), tag: nodeKindLeaf})
+}
+
+// AddInner registers an inner child (a node4 with the given header and no
+// children of its own); used to observe the path merge of node4.deleteChild.
+func (b *VerifBareNode) AddInner(c byte, id uint32, prefixLen uint32, prefix [maxPrefixLen]byte) {
+	n4 := new(node4)
+	n4.prefixLen = prefixLen
+	n4.prefix = prefix
+	b.ids[unsafe.Pointer(n4)] = id
+	b.ref.addChild(c, nodeRef{pointer: unsafe.Pointer(n4), tag: nodeKind4})
+}
+
+func (b *VerifBareNode) Remove(c byte) { b.ref.deleteChild(c) }
+
+func (b *VerifBareNode) Find(c byte) (uint32, bool) {
+	r := b.ref.findChild(c)
+	if r == nil {
+		return 0, false
+	}
+	id, ok := b.ids[r.pointer]
+	if !ok {
+		return ^uint32(0), true
+	}
+	return id, true
+}
+
+// Collapsed reports whether the node has been replaced by its last child.
+func (b *VerifBareNode) Collapsed() bool {
+	_, isChild := b.ids[b.ref.pointer]
+	return isChild
+}
+
+// Raw renders the node like VerifDump, with "<slot> <id>" for the children;
+// after a collapse it renders "C <id> <tag> <prefixLen> <prefix>".
+func (b *VerifBareNode) Raw() string {
+	var sb strings.Builder
+	if id, isChild := b.ids[b.ref.pointer]; isChild {
+		if b.ref.tag == nodeKindLeaf {
+			fmt.Fprintf(&sb, "C %d leaf 0 -", id)
+		} else {
+			n := b.ref.node()
+			fmt.Fprintf(&sb, "C %d inner %d %s", id, n.prefixLen, verifHex(n.prefix[:]))
+		}
+		return sb.String()
+	}
+	verifRaw(&sb, b.ref)
+	slots, refs := verifSlots(b.ref)
+	fmt.Fprintf(&sb, " %d", len(slots))
+	for i := range slots {
+		id, ok := b.ids[refs[i].pointer]
+		if !ok {
+			id = ^uint32(0)
+		}
+		fmt.Fprintf(&sb, " %d %d", slots[i], id)
+	}
+	return sb.String()
+}
+
+// Enumerate lists the children ids the way all()/backward() walk a node.
+func (b *VerifBareNode) Enumerate(desc bool) []uint32 {
+	var out []uint32
+	if _, isChild := b.ids[b.ref.pointer]; isChild {
+		return out
+	}
+	add := func(r nodeRef) { out = append(out, b.ids[r.pointer]) }
+	switch b.ref.tag {
+	case nodeKind4:
+		n := (*node4)(b.ref.pointer)
+		for i := 0; i < int(n.childrenLen); i++ {
+			add(n.children[i])
+		}
+	case nodeKind16:
+		n := (*node16)(b.ref.pointer)
+		for i := 0; i < int(n.childrenLen); i++ {
+			add(n.children[i])
+		}
+	case nodeKind48:
+		n := (*node48)(b.ref.pointer)
+		for i := 0; i < 256; i++ {
+			if idx := n.keys[i]; idx != 0 {
+				add(n.children[idx-1])
+			}
+		}
+	case nodeKind256:
+		n := (*node256)(b.ref.pointer)
+		for i := 0; i < 256; i++ {
+			if n.children[i].pointer != nil {
+				add(n.children[i])
+			}
+		}
+	}
+	if desc {
+		for i, j := 0, len(out)-1; i < j; i, j = i+1, j-1 {
+			out[i], out[j] = out[j], out[i]
+		}
+	}
+	return out
+}
+
+// First/Last follow minimum()/maximum() one level.
+func (b *VerifBareNode) First() uint32 { return b.ids[verifStep(b.ref, false).pointer] }
+func (b *VerifBareNode) Last() uint32  { return b.ids[verifStep(b.ref, true).pointer] }
+
+func verifStep(ref nodeRef, max bool) nodeRef {
+	switch ref.tag {
+	case nodeKind4:
+		n4 := (*node4)(ref.pointer)
+		if max {
+			return n4.children[n4.childrenLen-1]
+		}
+		return n4.children[0]
+	case nodeKind16:
+		n16 := (*node16)(ref.pointer)
+		if max {
+			return n16.children[n16.childrenLen-1]
+		}
+		return n16.children[0]
+	case nodeKind48:
+		n48 := (*node48)(ref.pointer)
+		if max {
+			idx := 255
+			for n48.keys[idx] == 0 {
+				idx--
+			}
+			return n48.children[int(n48.keys[idx])-1]
+		}
+		idx := 0
+		for n48.keys[idx] == 0 {
+			idx++
+		}
+		return n48.children[int(n48.keys[idx])-1]
+	case nodeKind256:
+		n256 := (*node256)(ref.pointer)
+		if max {
+			idx := 255
+			for n256.children[idx].pointer == nil {
+				idx--
+			}
+			return n256.children[idx]
+		}
+		idx := 0
+		for n256.children[idx].pointer == nil {
+			idx++
+		}
+		return n256.children[idx]
+	}
+	return nodeRef{}
+}
+
+func VerifSearchNode4(keys uint32, c byte) int    { return searchNode4(keys, c) }
+func VerifInsertPosNode4(keys uint32, c byte) int { return insertPosNode4(keys, c) }
+func VerifGetAtPos(keys uint32, pos int) byte     { return getAtPos(keys, pos) }
+func VerifSetAtPos(keys uint32, pos int, c byte) uint32 {
+	setAtPos(&keys, pos, c)
+	return keys
+}
+func VerifShiftLeftClear(keys uint32, pos int) uint32 {
+	shiftLeftClear(&keys, pos)
+	return keys
+}
+func VerifShiftRightClear(keys uint32, pos int) uint32 {
+	shiftRightClear(&keys, pos)
+	return keys
+}
+func VerifConstruct(a, b, c, d byte) uint32 { return construct(a, b, c, d) }
+func VerifDeconstruct(keys uint32) []byte   { return deconstruct(keys) }
+func VerifSearchNode16(keys *[16]byte, n uint8, c byte) int {
+	return searchNode16(keys, n, c)
+}
+func VerifInsertPosNode16(keys *[16]byte, n uint8, c byte) int {
+	return insertPosNode16(keys, n, c)
+}
+
+// VerifPoolAudit drains up to max objects of every pool class, counts those
+// that are not in their zero state, and puts them back. Diagnostic only.
+func VerifPoolAudit(max int) (nonZero [4]int, seen [4]int) {
+	for k := nodeKind4; k < nodeKindLeaf; k++ {
+		var held []any
+		for i := 0; i < max; i++ {
+			o := nodePools[k].Get()
+			held = append(held, o)
+			seen[k]++
+			zero := true
+			switch n := o.(type) {
+			case *node4:
+				zero = *n == node4{}
+			case *node16:
+				zero = *n == node16{}
+			case *node48:
+				zero = *n == node48{}
+			case *node256:
+				zero = *n == node256{}
+			}
+			if !zero {
+				nonZero[k]++
+			}
+		}
+		for _, o := range held {
+			nodePools[k].Put(o)
+		}
+	}
+	return
+}
